@@ -72,7 +72,13 @@ func indexNotFound(err error) bool {
 func (h HTTPIndexHandler) head(indexName string, w http.ResponseWriter) {
 	r, err := h.s.GetIndexReader(indexName)
 	if err != nil {
-		w.WriteHeader(http.StatusNotFound)
+		// Only a missing index is "not found", any other failure to open it
+		// is reported like GET does
+		if indexNotFound(err) {
+			w.WriteHeader(http.StatusNotFound)
+		} else {
+			w.WriteHeader(http.StatusBadRequest)
+		}
 		return
 	}
 	r.Close()
